@@ -50,8 +50,9 @@ def run(ctx):
     reps = []
     if b:
         reps.append(ctx.correspond(b, "TestVerifC19", "svdriver_c19", "c19",
-                                   env={"VERIF_N": 14 if quick else 260,
+                                   env={"VERIF_N": 10 if quick else 120,
                                         "VERIF_C19_EXTRA": 8 if quick else 120,
+                                        "VERIF_C19_STRESS": 4 if quick else 8,
                                         "VERIF_C19_FINDINGS": 2 if quick else 6},
                                    timeout=900 if quick else 3000))
     if not quick:
@@ -60,7 +61,8 @@ def run(ctx):
         br = ctx.go_test_binary(PKG, "h_c19_race", race=True)
         if br:
             reps.append(ctx.correspond(br, "TestVerifC19", "svdriver_c19", "c19race",
-                                       env={"VERIF_N": 14, "VERIF_C19_TABLE": 0, "VERIF_C19_FINDINGS": 1},
+                                       env={"VERIF_N": 6, "VERIF_C19_TABLE": 0, "VERIF_C19_FINDINGS": 1,
+                                            "VERIF_C19_STRESS": 2, "VERIF_C19_CHILD_N": 16},
                                        timeout=3000))
     programs = sum(int((r.get("stats") or {}).get("validated-conversions", 0)) for r in reps if r)
     return ctx.finish(
